@@ -457,3 +457,150 @@ Proof.
   split; [vm_compute; reflexivity|].
   split; [|lia]. intros c [<-|[<-|[]]]; cbn; lia.
 Qed.
+
+(* ---------- every cluster, with or without replicas ---------- *)
+Section AllClusters.
+  Variable cls : list cluster.
+  Variable iw : Z.
+  Hypothesis Hwf : forall c, In c cls -> wf_cluster c.
+  Hypothesis Hiw : 1 <= iw <= 256.
+
+  Lemma outw_len0 c : clen c = 0 -> outw cls iw c = cw c.
+  Proof.
+    intros E. unfold outw. destruct (_ =? 0); [reflexivity|]. destruct (_ =? 0); [reflexivity|].
+    unfold new_weight. rewrite E. reflexivity.
+  Qed.
+
+  Lemma outw_range_all c : In c cls -> cw c <= 256 -> 0 <= outw cls iw c <= 256.
+  Proof.
+    intros Hc Hw. destruct (Hwf c Hc) as [Hw0 Hl0].
+    destruct (Z.eq_dec (clen c) 0) as [E|E].
+    - rewrite outw_len0 by exact E. lia.
+    - apply outw_range; try assumption. lia.
+  Qed.
+End AllClusters.
+
+Lemma nth_map_default {A} (f : A -> Z) (l : list A) (d : A) i :
+  (i < length l)%nat -> nth i (map f l) 0 = f (nth i l d).
+Proof.
+  intros Hi. rewrite (nth_indep (map f l) 0 (f d)) by (rewrite map_length; exact Hi). apply map_nth.
+Qed.
+
+(* ---------- blue/green ---------- *)
+Lemma clamp256_range w : 0 <= clamp256 w <= 256.
+Proof. unfold clamp256. destruct (Z.ltb_spec w 0); [lia|]. destruct (Z.ltb_spec 256 w); lia. Qed.
+
+Lemma bg_lengths_length n eps : length (bg_lengths n eps) = n.
+Proof. unfold bg_lengths. rewrite map_length, seq_length. reflexivity. Qed.
+
+Lemma bg_clusters_length ws eps : length (bg_clusters ws eps) = length ws.
+Proof.
+  unfold bg_clusters. rewrite map_length, combine_length, bg_lengths_length, map_length. apply Nat.min_id.
+Qed.
+
+Lemma bg_clusters_wf ws eps c : In c (bg_clusters ws eps) -> 0 <= cw c <= 256 /\ 0 <= clen c.
+Proof.
+  unfold bg_clusters. intros H. apply in_map_iff in H as ([a b] & <- & Hin). cbn [cw clen fst snd].
+  split.
+  - apply in_combine_l in Hin. apply in_map_iff in Hin as (w & <- & _). apply clamp256_range.
+  - apply in_combine_r in Hin. unfold bg_lengths in Hin. apply in_map_iff in Hin as (i & <- & _). lia.
+Qed.
+
+Lemma bg_wf_input ws iw eps : 1 <= iw <= 256 -> wf_input (bg_clusters ws eps) iw.
+Proof. intros Hiw. split; [intros c Hc; apply (bg_clusters_wf ws eps c Hc)|exact Hiw]. Qed.
+
+Lemma bg_group_lt n e i : bg_group n e = Some i -> (i < n)%nat /\ In i (snd e).
+Proof.
+  unfold bg_group. destruct (rev _) as [|j r] eqn:E; [discriminate|]. intros H; inversion H; subst j.
+  assert (Hin : In i (rev (filter (fun i => Nat.ltb i n) (snd e)))) by (rewrite E; left; reflexivity).
+  apply in_rev in Hin. apply filter_In in Hin as [Hi Hlt]. apply Nat.ltb_lt in Hlt. split; assumption.
+Qed.
+
+(* every weight written on a server is in 0..256, in both modes *)
+Theorem bg_deploy_range ws iw eps : 1 <= iw <= 256 ->
+  forall w, In w (bg_server_weights ws iw eps) -> 0 <= w <= 256.
+Proof.
+  intros Hiw w Hin. unfold bg_server_weights in Hin. apply in_map_iff in Hin as (e & <- & He).
+  destruct (fst e); [lia|]. destruct (bg_group (length ws) e) as [i|] eqn:Eg; [|lia].
+  apply bg_group_lt in Eg as [Hlt _].
+  rewrite (rebalance_map (bg_clusters ws eps) iw).
+  rewrite (nth_map_default _ _ {| cw := 0; clen := 0 |}) by (rewrite bg_clusters_length; exact Hlt).
+  assert (Hin : In (nth i (bg_clusters ws eps) {| cw := 0; clen := 0 |}) (bg_clusters ws eps))
+    by (apply nth_In; rewrite bg_clusters_length; exact Hlt).
+  apply outw_range_all; [intros c Hc; destruct (bg_clusters_wf ws eps c Hc); split; lia|exact Hiw|exact Hin|].
+  apply (bg_clusters_wf ws eps _ Hin).
+Qed.
+
+Theorem bg_pod_range ws eps : forall w, In w (bg_pod_weights ws eps) -> 0 <= w <= 256.
+Proof.
+  intros w Hin. unfold bg_pod_weights in Hin. apply in_map_iff in Hin as (e & <- & He).
+  destruct (fst e); [lia|]. destruct (bg_group (length ws) e) as [i|] eqn:Eg; [|lia].
+  apply bg_group_lt in Eg as [Hlt _].
+  rewrite (nth_map_default clamp256 ws 0) by exact Hlt. apply clamp256_range.
+Qed.
+
+(* draining servers and servers that match no group get weight zero, in both modes *)
+Theorem bg_unmatched_zero ws iw eps k e :
+  nth_error eps k = Some e -> fst e = true \/ bg_group (length ws) e = None ->
+  nth_error (bg_server_weights ws iw eps) k = Some 0 /\ nth_error (bg_pod_weights ws eps) k = Some 0.
+Proof.
+  intros Hk Hc. unfold bg_server_weights, bg_pod_weights.
+  rewrite (map_nth_error _ _ _ Hk), (map_nth_error _ _ _ Hk).
+  destruct Hc as [Hd|Hn]; [rewrite Hd; split; reflexivity|].
+  rewrite Hn. destruct (fst e); split; reflexivity.
+Qed.
+
+(* the cluster of a group that a live endpoint carries has at least that replica *)
+Lemma bg_cluster_nth ws eps i :
+  (i < length ws)%nat ->
+  nth i (bg_clusters ws eps) {| cw := 0; clen := 0 |} =
+  {| cw := clamp256 (nth i ws 0);
+     clen := Z.of_nat (length (filter (fun e : bg_endpoint => negb (fst e) && existsb (Nat.eqb i) (snd e)) eps)) |}.
+Proof.
+  intros Hlt. unfold bg_clusters.
+  set (f := fun p : Z * Z => {| cw := fst p; clen := snd p |}).
+  change {| cw := 0; clen := 0 |} with (f (0, 0)). rewrite map_nth. unfold f.
+  rewrite combine_nth by (rewrite bg_lengths_length, map_length; reflexivity).
+  cbn [fst snd]. f_equal.
+  - change 0 with (clamp256 0) at 1. apply map_nth.
+  - unfold bg_lengths. rewrite map_length.
+    set (g := fun i0 => Z.of_nat (length (filter (fun e : bg_endpoint => negb (fst e) && existsb (Nat.eqb i0) (snd e)) eps))).
+    rewrite (nth_indep (map g (seq 0 (length ws))) 0 (g 0%nat)) by (rewrite map_length, seq_length; exact Hlt).
+    rewrite map_nth. rewrite seq_nth by exact Hlt. reflexivity.
+Qed.
+
+(* a live server of a group: weight zero exactly when the configured (clamped) weight of
+   the group is zero -- mode deploy *)
+Theorem bg_deploy_zero_iff ws iw eps k e i :
+  1 <= iw <= 256 ->
+  nth_error eps k = Some e -> fst e = false -> bg_group (length ws) e = Some i ->
+  exists w, nth_error (bg_server_weights ws iw eps) k = Some w /\ (w = 0 <-> clamp256 (nth i ws 0) = 0).
+Proof.
+  intros Hiw Hk Hd Hg. unfold bg_server_weights. rewrite (map_nth_error _ _ _ Hk).
+  rewrite Hd, Hg. eexists. split; [reflexivity|].
+  destruct (bg_group_lt _ _ _ Hg) as [Hlt Hin].
+  rewrite (rebalance_map (bg_clusters ws eps) iw).
+  rewrite (nth_map_default _ _ {| cw := 0; clen := 0 |}) by (rewrite bg_clusters_length; exact Hlt).
+  set (c := nth i (bg_clusters ws eps) {| cw := 0; clen := 0 |}).
+  assert (Hc : In c (bg_clusters ws eps)) by (apply nth_In; rewrite bg_clusters_length; exact Hlt).
+  assert (Ec : c = _) by (apply (bg_cluster_nth ws eps i Hlt)).
+  assert (Hpos : 0 < clen c).
+  { rewrite Ec. cbn [clen].
+    assert (Hf : In e (filter (fun e0 : bg_endpoint => negb (fst e0) && existsb (Nat.eqb i) (snd e0)) eps)).
+    { apply filter_In. split; [eapply nth_error_In; exact Hk|]. rewrite Hd. cbn [negb andb].
+      apply existsb_exists. exists i. split; [exact Hin|apply Nat.eqb_refl]. }
+    destruct (filter (fun e0 : bg_endpoint => negb (fst e0) && existsb (Nat.eqb i) (snd e0)) eps);
+      [destruct Hf|cbn [length]; lia]. }
+  assert (Hcw : cw c = clamp256 (nth i ws 0)) by (rewrite Ec; reflexivity).
+  rewrite <- Hcw.
+  apply outw_zero_iff; [intros d Hdn; destruct (bg_clusters_wf ws eps d Hdn); split; lia|exact Hiw|exact Hc|exact Hpos].
+Qed.
+
+Theorem bg_pod_value ws eps k e i :
+  nth_error eps k = Some e -> fst e = false -> bg_group (length ws) e = Some i ->
+  nth_error (bg_pod_weights ws eps) k = Some (clamp256 (nth i ws 0)).
+Proof.
+  intros Hk Hd Hg. unfold bg_pod_weights. rewrite (map_nth_error _ _ _ Hk). rewrite Hd, Hg.
+  destruct (bg_group_lt _ _ _ Hg) as [Hlt _].
+  rewrite (nth_map_default clamp256 ws 0) by exact Hlt. reflexivity.
+Qed.
